@@ -143,9 +143,11 @@ Inductive fpc :=
 | FRecv                                  (* at  chunk, ok := <-feeder.inputChannel *)
 | FLoad (c : chunk)                      (* received c; about to call loadToOutput(c) *)
 | FPush (c loaded : chunk)               (* in loadToOutput at the select; c = Run's own copy *)
-| FSave (last : option chunk)            (* in saveEverything, between two chunks *)
+| FSave (last : option chunk)            (* in saveQueued (rest of inputChannel, lastInputChunk), between two chunks *)
 | FSaveW (last : option chunk) (c : chunk)  (* in UnloadChunk(c): space check passed, write not yet done *)
 | FWait                                  (* at consumerCounter.Wait() *)
+| FSaveOut                               (* in saveOutput (what is left in outputChannel), between two chunks *)
+| FSaveOutW (c : chunk)                  (* in UnloadChunk(c) called by saveOutput: check passed, write not yet done *)
 | FStopped.                              (* after stopped.Signal() *)
 
 (* ---------- history variables ---------- *)
@@ -308,10 +310,10 @@ Inductive event :=
 | EFeedLoad (rerr : bool)                             (* feeder: LoadOrDropChunk + zero-length rule *)
 | EFeedPush                                           (* feeder: send to outputChannel *)
 | EFeedStop                                           (* feeder: leaves the main loop, closes outputChannel *)
-| ESaveCheck                                          (* saveEverything: next chunk, UnloadChunk up to the write *)
+| ESaveCheck                                          (* saveQueued / saveOutput: next chunk, UnloadChunk up to the write *)
 | ESaveWrite (ws : wscript)                           (* saveEverything: the write and what follows *)
-| ESaveEnd                                            (* saveEverything returns *)
-| EFeedStopped                                        (* consumerCounter.Wait returns; Close; stopped *)
+| ESaveEnd                                            (* saveQueued / saveOutput returns *)
+| EFeedStopped                                        (* consumerCounter.Wait returns *)
 | ERegister                                           (* RegisterNewConsumer *)
 | EConsTake                                           (* a consumer receives from outputChannel *)
 | EConsumed (i : nat)                                 (* OnChunkConsumed(i-th chunk held) *)
@@ -406,62 +408,82 @@ Definition do_feed_stop (s : state) : option state :=
   | _ => None
   end.
 
-(* the chunk saveEverything handles next: inputChannel, then lastInputChunk, then outputChannel *)
-Definition save_next (s : state) : option (chunk * option chunk * state) :=
+(* The chunk the feeder saves next, and the program counter to come back to.
+   saveQueued (before consumerCounter.Wait): the rest of inputChannel, then lastInputChunk;
+   saveOutput (after consumerCounter.Wait): what is left in outputChannel. *)
+Definition save_next (s : state) : option (chunk * fpc * state) :=
   match st_fpc s with
   | FSave last =>
     match st_queue s with
-    | c :: q => Some (c, last, set_queue q s)
+    | c :: q => Some (c, FSave last, set_queue q s)
     | [] =>
       match last with
-      | Some c => Some (c, None, s)
-      | None =>
-        match st_win s with
-        | c :: w => Some (c, None, gh (g_outadd c false) (set_win w s))
-        | [] => None
-        end
+      | Some c => Some (c, FSave None, s)
+      | None => None
       end
     end
+  | FSaveOut =>
+    match st_win s with
+    | c :: w => Some (c, FSaveOut, gh (g_outadd c false) (set_win w s))
+    | [] => None
+    end
   | _ => None
+  end.
+
+Definition writing_pc (back : fpc) (c : chunk) : fpc :=
+  match back with
+  | FSave last => FSaveW last c
+  | _ => FSaveOutW c
   end.
 
 Definition do_save_check (s : state) : option state :=
   match save_next s with
-  | Some (c, last, s1) =>
+  | Some (c, back, s1) =>
     match unload_check (st_dirok s1) (st_max s1) (st_met s1) c with
-    | UYes => Some (gh (g_retain (c_id c)) (set_fpc (FSave last) s1))
-    | UNo => Some (gh (g_drop (c_id c)) (set_fpc (FSave last) (set_met (man_on_dropped (st_met s1) c) s1)))
+    | UYes => Some (gh (g_retain (c_id c)) (set_fpc back s1))
+    | UNo => Some (gh (g_drop (c_id c)) (set_fpc back (set_met (man_on_dropped (st_met s1) c) s1)))
     | UWrite _ =>
-      Some (gh (fun g => gset_maxfw (Z.max (g_maxfw g) (dlen c)) g) (set_fpc (FSaveW last c) s1))
+      Some (gh (fun g => gset_maxfw (Z.max (g_maxfw g) (dlen c)) g) (set_fpc (writing_pc back c) s1))
     end
   | None => None
   end.
 
+(* the chunk being written by the feeder and where the feeder goes on afterwards *)
+Definition saving (p : fpc) : option (chunk * fpc) :=
+  match p with
+  | FSaveW last c => Some (c, FSave last)
+  | FSaveOutW c => Some (c, FSaveOut)
+  | _ => None
+  end.
+
 Definition do_save_write (ws : wscript) (s : state) : option state :=
-  match st_fpc s with
-  | FSaveW last c =>
+  match saving (st_fpc s) with
+  | Some (c, back) =>
     match c_data c with
     | Some data =>
       match unload_write ws (st_dir s) (st_met s) c data with
-      | URet d m _ true => Some (gh (g_retain (c_id c)) (set_fpc (FSave last) (set_met m (set_dir d s))))
+      | URet d m _ true => Some (gh (g_retain (c_id c)) (set_fpc back (set_met m (set_dir d s))))
       | URet d m _ false =>
-        Some (gh (g_drop (c_id c)) (set_fpc (FSave last) (set_met (man_on_dropped m c) (set_dir d s))))
+        Some (gh (g_drop (c_id c)) (set_fpc back (set_met (man_on_dropped m c) (set_dir d s))))
       | UDied d => Some (crash_with d s)
       end
     | None => None
     end
+  | None => None
+  end.
+
+(* saveQueued returns (-> consumerCounter.Wait) / saveOutput returns (-> Close, stopped.Signal) *)
+Definition do_save_end (s : state) : option state :=
+  match st_fpc s with
+  | FSave None => match st_queue s with [] => Some (set_fpc FWait s) | _ :: _ => None end
+  | FSaveOut => match st_win s with [] => Some (set_fpc FStopped s) | _ :: _ => None end
   | _ => None
   end.
 
-Definition do_save_end (s : state) : option state :=
-  match st_fpc s, st_queue s, st_win s with
-  | FSave None, [], [] => Some (set_fpc FWait s)
-  | _, _, _ => None
-  end.
-
+(* consumerCounter.Wait returns: every consumer has called OnFinished *)
 Definition do_feed_stopped (s : state) : option state :=
   match st_fpc s, st_cons s with
-  | FWait, O => Some (set_fpc FStopped s)
+  | FWait, O => Some (set_fpc FSaveOut s)
   | _, _ => None
   end.
 
@@ -574,8 +596,8 @@ Definition next_hidden (s : state) : option event :=
     | FLoad _ => Some (EFeedLoad false)
     | FPush _ _ => if st_closed s then Some EFeedStop
                    else if Nat.ltb (length (st_win s)) (st_M s) then Some EFeedPush else None
-    | FSave _ => match save_next s with Some _ => Some ESaveCheck | None => Some ESaveEnd end
-    | FSaveW _ _ => Some (ESaveWrite ws_ok)
+    | FSave _ | FSaveOut => match save_next s with Some _ => Some ESaveCheck | None => Some ESaveEnd end
+    | FSaveW _ _ | FSaveOutW _ => Some (ESaveWrite ws_ok)
     | FWait => match st_cons s with O => Some EFeedStopped | S _ => None end
     | FStopped => None
     end
@@ -614,17 +636,19 @@ Definition mix (h v : Z) : Z := ((h * 1000003 + (v mod 4294967296) + 7) mod 4294
 
 (* operations of the harness: an event of the LTS; or "plant an empty FIFO under name n, start a bufferer, and
    let the feeder run only up to the load of n" (two events: ETamper, ERestart); or "let the feeder go on"
-   (no event: scheduling only) *)
+   (no event: scheduling only); or "the consumer polls the window and finds it empty" (no event) *)
 Inductive rop :=
 | ROp (e : event)
 | RHold (n : name) (Q M : nat) (maxb : Z)
-| RRelease.
+| RRelease
+| RProbe.
 
 Definition events_of (o : rop) : list event :=
   match o with
   | ROp e => [e]
   | RHold n Q M maxb => [ETamper n (Some (EFile [])); ERestart Q M maxb true]
   | RRelease => []
+  | RProbe => []
   end.
 
 (* while the feeder is held the harness only accepts chunks, registers consumers and touches foreign files *)
@@ -670,6 +694,12 @@ Fixpoint replay (i : nat) (ops : list rop) (hold : option name) (s : state) (h :
       end
     | RRelease =>
       if stalled hold s then go s None else inr i
+    | RProbe =>
+      (* the consumer polls the window and finds nothing (no event: an observation) *)
+      match hold, st_win s with
+      | None, [] => go s hold
+      | _, _ => inr i
+      end
     end
   end.
 
@@ -685,6 +715,7 @@ End Buffer.
      10 Tamper   a=name b=kind (0 remove, 1 file with data c, 2 sub-directory)
      12 Hold     a=name b=1000*Q+M c=maxBytes: empty FIFO under the name, Restart, feeder stops at its load
      13 Release  the feeder goes on
+     14 Probe    the consumer polls the window and finds it empty
    write script  c = kind + 16*n:  0 none, 1 open fails, 2 rename fails, 3 short write of n bytes without
      error, 4 write error after n bytes, 5..8 killed at kill point 1..4 (n bytes written), 9 close fails.
    The matcher is the one of the fluentd-forward output: strings.HasSuffix(id, ".ff"). *)
@@ -738,6 +769,7 @@ Fixpoint parse_ops (fuel : nat) (pool : list bytes) (zs : list Z) : option (list
                          else if (b =? 1)%Z then Some (EFile (pool_get pool c)) else Some EDir)))
         else if (opc =? 12)%Z then Some (RHold (pool_get pool a) (Z.to_nat (b / 1000)) (Z.to_nat (b mod 1000)) c)
         else if (opc =? 13)%Z then Some RRelease
+        else if (opc =? 14)%Z then Some RProbe
         else None in
       match ev, parse_ops f pool zs' with
       | Some e, Some es => Some (e :: es)
@@ -769,7 +801,7 @@ Fixpoint filter_map {A B} (f : A -> option B) (l : list A) : list B :=
 Definition show_fpc (p : fpc) : bytes :=
   match p with
   | FRecv => [114] | FLoad _ => [108] | FPush _ _ => [112] | FSave _ => [115] | FSaveW _ _ => [119]
-  | FWait => [97] | FStopped => [122]
+  | FWait => [97] | FSaveOut => [111] | FSaveOutW _ => [118] | FStopped => [122]
   end.
 
 Definition show_state (s : state) (h : Z) : bytes :=
